@@ -435,6 +435,68 @@ def exact_registration_widened_later(col, contract):
                 del contract.disagreements[:]
 
 
+def refused_operations_leave_no_trace(col, contract):
+    """"the choice does not depend on which lookups happened before" includes lookups that found NOTHING: after operations that were
+    refused for a type (a reduction of a non-iterable, a list spec, an Iter, wildcard walks over such leaves, assign / delete on an
+    immutable) every later lookup for that type answers as it did on a fresh registry - and a registration made afterwards is used"""
+    import glom as glom_pkg
+    from glom import Sum, Flatten, Merge, FoldError
+    for kind in ('Glommer', 'Glommer-without-defaults', 'module-level'):
+        class Opaque:
+            __slots__ = ('v',)
+
+            def __init__(self):
+                self.v = 1
+
+        class OpaqueChild(Opaque):
+            __slots__ = ()
+        if kind == 'module-level':
+            reg, run = glom_pkg.register, glom_pkg.glom
+        else:
+            g = Glommer(register_default_types=(kind == 'Glommer'))
+            reg, run = g.register, g.glom
+            if kind != 'Glommer':
+                g.register(dict, get=lambda d, k: d[k], iterate=False)
+                g.register(list, get=lambda l, i: l[int(i)], iterate=iter)
+        probes = [('list spec', [T]), ('Iter', (Iter(), list)), ('list spec below a path', ('box', [T])), ('Sum', Sum()), ('Flatten', Flatten()),
+                  ('Merge', Merge()), ('Fold', Fold(T, init=list)), ('with default', Coalesce([T], default='dflt'))]
+
+        def outcomes(cls):
+            out = []
+            for name, spec in probes:
+                t = {'box': cls()} if 'below' in name else cls()
+                o = call(run, t, spec)
+                out.append((name, ('value', repr(o.value)) if o.ok else ('raise', type(o.exc).__name__, isinstance(o.exc, UnregisteredTarget), isinstance(o.exc, FoldError))))
+            return out
+        fresh = {cls: outcomes(cls) for cls in (Opaque, OpaqueChild)}
+        # refused operations of every kind, and walks that meet such leaves
+        for cls in (Opaque, OpaqueChild):
+            for spec in (Sum(), Flatten(), Merge(), '*', '**', T.__star__(), Assign('zz', 1), Delete('zz', ignore_missing=True), 'v.real'):
+                call(run, cls(), spec)
+                call(run, {'box': [cls(), cls()]}, ('box', spec) if not isinstance(spec, str) else 'box.' + spec)
+        for cls in (Opaque, OpaqueChild):
+            again = outcomes(cls)
+            col.case(('refused-operations', kind, cls.__name__), True)
+            col.count('api_lookups', len(again))
+            col.count('lookups_after_refused_operations', len(again))
+            if again != fresh[cls]:
+                diff = [(a, b) for a, b in zip(fresh[cls], again) if a != b]
+                col.violation('C13/lookup-depends-on-earlier-refused-operations:' + diff[0][0][0].replace(' ', '-'),
+                              '%s registry, instances of %s: before any refused operation %r ; after refused reductions / wildcard walks / edits %r'
+                              % (kind, cls.__name__, diff[0][0], diff[0][1]), None)
+        reg(Opaque, iterate=lambda o: iter(['registered-item']))
+        for cls in (Opaque, OpaqueChild):
+            got = call(run, cls(), [T])
+            col.count('api_lookups')
+            if not got.ok or got.value != ['registered-item']:
+                col.violation('C13/registration-after-refused-operations-not-used', '%s registry: after refused operations, register(Opaque, iterate=...) ; [T] on a %s '
+                              'instance gives %r' % (kind, cls.__name__, got), None)
+        if contract.disagreements:
+            d = contract.disagreements[0]
+            col.violation('C13/contract:%s:refused-operations' % d['op'], 'get_handler post-condition failed: %s' % (d,), d)
+            del contract.disagreements[:]
+
+
 def ephemeral_classes(col, contract):
     """classes created at run time, looked up once and dropped (and collected), in turn of different kinds, on ONE registry
     without any register() call in between: each lookup is decided by the class at hand, whatever was looked up before at
@@ -706,6 +768,7 @@ def run(ctx):
             repeated_registration(col, contract)
             explicit_false_survives_reregistration(col, contract)
             exact_registration_widened_later(col, contract)
+            refused_operations_leave_no_trace(col, contract)
             ephemeral_classes(col, contract)
             created_levels_use_the_calls_registry(col)
         fams = families()
